@@ -188,6 +188,14 @@ def confirm_pipe(v):
             req['build_kind'] = list(spec[2][1])
     except Exception:
         pass
+    mask0 = lambda t: re.sub(r'bumped_timestamp: Some\(\d+\)', 'bumped_timestamp: T', t or '')
+    rp = native.driver().call(**dict(req, pipe=True))
+    if 'panic' in rp:
+        return True, 'pipe stages panic natively: %s' % rp['panic']
+    if rp.get('ok') is False and rp.get('stage') in (2, 3):
+        return True, 'the document a direct run emits is not taken by the stdin stage: %s' % rp.get('err')
+    if rp.get('ok') and (mask0(rp['object']) != mask0(rp['object2']) or mask0(rp['emitted']) != mask0(rp['emitted2'])):
+        return True, 'to_zerv -> emit -> stdin source -> to_zerv (real code, order %s): the second object / document differs from the first' % v['orders'][0]
     r = native.driver().call(**req)
     if not r.get('emitted'):
         return False, 'object not emitted natively: %s' % r
